@@ -2,6 +2,7 @@ import Reduino.Driver.Util
 import Reduino.Driver.Core
 import Reduino.Fw.Lcd
 import Reduino.Fw.LcdAnim
+import Reduino.Fw.LcdAnimWrap
 /- Line protocol for the LCD text models: `lcdtext|fw|cols rows|op|op…` and `lcdtext|host|cols rows|op|op…` -/
 namespace Reduino.Driver
 open Reduino Reduino.Lcd
@@ -95,7 +96,9 @@ def animSpecs (s : String) : List AnimSpec :=
 def showActives (l : List Anim) : String := String.join (l.map fun a => if a.active then "1" else "0")
 
 /-- firmware: setup starts the animations, every pass ticks each one (one millis() per active animation) then sleeps -/
-def runAnimFw (cols rows : Nat) (drifts : List Nat) (sleepMs passes : Nat) (specs : List AnimSpec) : String :=
+/- `W = 0`: the natural-number clock; otherwise the templates' arithmetic on a counter of `W` values that reads `start` at power-up
+   (`Fw.tickW`, related to the natural-number model by `Props.C18.fw_run_across_wrap`) -/
+def runAnimFw (cols rows : Nat) (drifts : List Nat) (sleepMs passes : Nat) (specs : List AnimSpec) (W : Nat := 0) (start : Nat := 0) : String :=
   let (anims, g0) := specs.foldl (fun (acc : List Anim × Grid) sp =>
       let (a, o) := Fw.start sp.style acc.2 cols sp.row sp.text sp.speed sp.loop
       (acc.1 ++ [a], o.grid)) ([], blank cols rows)
@@ -106,7 +109,7 @@ def runAnimFw (cols rows : Nat) (drifts : List Nat) (sleepMs passes : Nat) (spec
     | a :: rest =>
       if a.active then
         let (now', ds') := match ds with | [] => (now, []) | d :: r => (now + d, r)
-        let (a', o, st) := Fw.tick a g cols now'
+        let (a', o, st) := if W = 0 then Fw.tick a g cols now' else Fw.tickW W a g cols ((start + now') % W)
         tickAll rest o.grid now' ds' (done ++ [a']) (stepped ++ (if st then "s" else "-"))
       else tickAll rest g now ds (done ++ [a]) (stepped ++ ".")
   let rec go (k : Nat) (as : List Anim) (g : Grid) (now : Nat) (ds : List Nat) (acc : List String) : List String :=
@@ -138,6 +141,10 @@ def handleLcd (fields : List String) : Option String :=
   | ["lcdanim", "fw", geom, drifts, sl, passes, specs] =>
     match (words geom).map String.toNat! with
     | [c, r] => some (runAnimFw c r ((words drifts).map String.toNat!) sl.toNat! passes.toNat! (animSpecs specs))
+    | _ => some "bad-op"
+  | ["lcdanim", "fwW", geom, drifts, sl, passes, specs, w, start] =>
+    match (words geom).map String.toNat! with
+    | [c, r] => some (runAnimFw c r ((words drifts).map String.toNat!) sl.toNat! passes.toNat! (animSpecs specs) w.toNat! start.toNat!)
     | _ => some "bad-op"
   | ["lcdanim", "host", geom, times, specs] =>
     match (words geom).map String.toNat! with
